@@ -94,14 +94,13 @@ def handle (j : Json) : Except String Json := do
   let st := runDoc sch root
   let o := specClauses sch root
   return Json.mkObj [
-    ("m", Json.mkObj [("errs", Json.arr (st.errs.reverse.map errJ).toArray), ("crash", st.crash),
+    ("m", Json.mkObj [("errs", Json.arr (st.errs.reverse.map errJ).toArray),
                       ("nested", nats st.nested.eraseDups)]),
     ("o", Json.arr (o.eraseDups.map fun (c, cl) => Json.arr #[nat c, clauseJ cl]).toArray),
     ("id", Json.arr ((idRun (idEvents root)).map idErrJ).toArray),
     ("flags", Json.mkObj [
       ("spread", Json.arr ((referSpread sch root).map fun (c, m) => Json.arr #[nat c, nat m]).toArray),
       ("conflict", conflict sch root),
-      ("partialUnique", nats (partialUnique sch root)),
       ("strq", nats (strQName sch root))])]
 
 end XsVerif.Driver.C08
